@@ -417,6 +417,6 @@ impl Runner {
         }
         let sql = p.sql();
         let neg = sql.contains("NOT (") || sql.contains("<>");
-        format!(":indexed{}{}{}{}", if neg { ":negation" } else { "" }, if self.ctx.stable_row_ids { ":stable-row-ids" } else { "" }, if self.seen_col_rewrite { ":after-column-rewrite" } else { "" }, if self.seen_defer_remap { ":defer-remap" } else { "" })
+        format!(":indexed{}{}", if neg { ":negation" } else { "" }, self.idx_tags(&self.used_index_cols(&pc, &[])))
     }
 }
